@@ -1199,7 +1199,7 @@ class CursorLen(CursorContract):
         r = outcome[1] if outcome[0] == "return" else None
         S = pre["S"]
         # two duplicate-free enumerations of the same set (the job directories) have the same length
-        ex.assume(z3.Implies(z3.BoolVal(not case["filter"]), g["lst"].n == S.n), why="two duplicate-free listings of one workspace have equal length (cardinality lemma, assumed)")
+        ex.assume(z3.Implies(z3.BoolVal(not case["filter"]), g["lst"].n == S.n), why="two duplicate-free listings of one workspace have equal length (Lean: nodup_same_set_length in /verif/lean/Meta.lean, re-checked in the thorough tier)")
         ex.oblige(self.oname("ensures:length_is_the_size_of_the_selected_id_set"), r.e == S.n if isinstance(r, SInt) else z3.BoolVal(False))
 
 
